@@ -24,6 +24,28 @@ FIXED_NAMES = []
 for _s, _n in BINOPS:
   FIXED_NAMES += [f"__{_n}__", f"__r{_n}__"]
 FIXED_NAMES += ["__getitem__", "__neg__", "__call__", "__init__", "as_integer_ratio", "to_bytes"]
+# ---- C14x extension (ids 30..53, coq/Ops/Model.v is_new): comparisons, membership, in-place, other unary dunders
+CMPOPS = [("<", "lt"), ("<=", "le"), (">", "gt"), (">=", "ge"), ("==", "eq"), ("!=", "ne")]
+LT = len(FIXED_NAMES)                       # 30: __lt__ __le__ __gt__ __ge__ __eq__ __ne__
+FIXED_NAMES += [f"__{_n}__" for _s, _n in CMPOPS]
+CONTAINS = len(FIXED_NAMES)                 # 36
+FIXED_NAMES += ["__contains__"]
+IOP0 = len(FIXED_NAMES)                     # 37 + i : in-place dunder of binary operator i
+FIXED_NAMES += [f"__i{_n}__" for _s, _n in BINOPS]
+POS, INVERT, BOOL, LEN, ITER = range(len(FIXED_NAMES), len(FIXED_NAMES) + 5)      # 49..53
+FIXED_NAMES += ["__pos__", "__invert__", "__bool__", "__len__", "__iter__"]
+SETITEM, DELITEM = len(FIXED_NAMES), len(FIXED_NAMES) + 1      # 54, 55:  x[k] = 1,  del x[k]
+FIXED_NAMES += ["__setitem__", "__delitem__"]
+NEW_END = len(FIXED_NAMES)                  # 56
+NEW_ARG1 = list(range(LT, IOP0 + N_BIN)) + [SETITEM, DELITEM]   # new dunders probed with one (key) argument
+NEW_ARG0 = [POS, INVERT, BOOL, LEN, ITER]   # new nullary dunders
+SWAPPED = {LT: LT + 2, LT + 1: LT + 3, LT + 2: LT, LT + 3: LT + 1, LT + 4: LT + 4, LT + 5: LT + 5}
+
+
+def iname(op):
+  """id of the in-place dunder of the binary operator whose forward dunder has id op."""
+  return IOP0 + op // 2
+
 ADVERTISED = [0, 2, 4, 6]            # ids of + - * /   (the mistakes pytype advertises), plus NEG and GETITEM
 OR_ID = 2 * 10
 
@@ -79,14 +101,31 @@ class F_:
 ''' + "".join(f"  def __{n}__(self, o): return 0\n  def __r{n}__(self, o): return 0\n" for _, n in BINOPS)
 
 
+NULLARY = (NEG, CALL, POS, INVERT, BOOL, LEN, ITER)
+_NULL_RET = {BOOL: "True", LEN: "0", ITER: "iter(())"}
+
+
 def _single(d):
   nm = FIXED_NAMES[d]
   if d == GETITEM:
     return f"class G{d}_:\n  def {nm}(self, k):\n{GETITEM_GUARD}    return 0\n"
-  return f"class G{d}_:\n  def {nm}(self{'' if d in (NEG, CALL) else ', o'}): return 0\n"
+  if d in NULLARY:
+    return f"class G{d}_:\n  def {nm}(self): return {_NULL_RET.get(d, '0')}\n"
+  if d == SETITEM:
+    return f"class G{d}_:\n  def {nm}(self, k, v): return None\n"
+  return f"class G{d}_:\n  def {nm}(self, o): return {'True' if d == CONTAINS else '0'}\n"
 
 
-SINGLE_CLASSES = "".join(_single(d) for d in range(CALL + 1))
+SINGLE_IDS = list(range(CALL + 1))                 # singles probed for the old dunders
+SINGLE_IDS2 = SINGLE_IDS + [CONTAINS, LEN, ITER]   # ... and for the new ones
+SINGLE_CLASSES = "".join(_single(d) for d in SINGLE_IDS2)
+# H_: the full class for the new dunders (F_ + membership/iteration protocol); RF_: reflected dunders only
+PROBE_CLASSES += """class H_(F_):
+  def __contains__(self, o): return True
+  def __len__(self): return 0
+  def __iter__(self): return iter(())
+class RF_:
+""" + "".join(f"  def __r{n}__(self, o): return 0\n" for _, n in BINOPS)
 
 
 def fixed_user_classes():
@@ -101,6 +140,15 @@ def fixed_user_classes():
       dict(name="UD", bases=[2], dunders={}, cattrs=[("cb", "int")], init=[("ib", "int")]),
       dict(name="UE", bases=[], dunders={}, cattrs=[], init=None),
       dict(name="UF", bases=[], dunders={A: [], 5: [], 2: "all", 3: "all", 6: "all", 7: "all"}, cattrs=[], init=None),
+      # C14x: comparison / membership / in-place / unary dunders (ids 20..23)
+      dict(name="UG", bases=[], dunders={LT: "all", LT + 4: "all", CONTAINS: "all", IOP0: "all", POS: "all",
+                                         BOOL: "all"}, cattrs=[], init=None),
+      dict(name="UH", bases=[6], dunders={LT + 2: "all", IOP0: [], A: "all", IOP0 + 1: [], DELITEM: "all"}, cattrs=[], init=None),
+      dict(name="UI", bases=[], dunders={LT + 2: "all", LT + 3: [], ITER: "all", INVERT: "all", LEN: [],
+                                         IOP0 + 1: [], 3: "all", R: "all", 21: "all"}, cattrs=[], init=None),
+      dict(name="UJ", bases=[], dunders={GETITEM: "all", BOOL: [], IOP0 + 10: "all", LT + 1: [5], LT + 5: "all",
+                                         SETITEM: "all"},
+           cattrs=[], init=None),
   ]
 
 
@@ -114,10 +162,15 @@ def random_user_classes(r, n):
       if _c3_ok(out, bases):
         break
     dn = {}
-    pool = [0, 1, 0, 1, 2, 3, 4, 5, 6, 7, 18, 19, 20, 21, GETITEM, NEG, CALL]
-    for d in r.sample(pool, r.choice([0, 1, 2, 3, 4])):
+    pool = [0, 1, 0, 1, 2, 3, 4, 5, 6, 7, 18, 19, 20, 21, GETITEM, NEG, CALL,
+            LT, LT, LT + 1, LT + 2, LT + 2, LT + 3, LT + 4, LT + 5, CONTAINS, IOP0, IOP0, IOP0 + 1, IOP0 + 2,
+            IOP0 + 10, POS, INVERT, BOOL, LEN, ITER, SETITEM, DELITEM]
+    for d in r.sample(pool, r.choice([0, 1, 2, 3, 4, 5, 6])):
       z = r.random()
-      if z < 0.7 or d >= 2 * N_BIN:      # __getitem__/__neg__/__call__: NotImplemented is just a value there
+      binary_like = d < 2 * N_BIN or LT <= d < CONTAINS or IOP0 <= d < IOP0 + N_BIN       # not SETITEM / DELITEM
+      if d in (BOOL, LEN):
+        dn[d] = "all" if z < 0.7 else []
+      elif z < 0.7 or not binary_like:   # __getitem__/__neg__/__call__...: NotImplemented is just a value there
         dn[d] = "all"
       elif z < 0.85:
         dn[d] = []
@@ -180,7 +233,19 @@ def class_source(classes, markers=True):
       acc = c["dunders"][d]
       ret = f"{marker(i, d)}()" if markers else "0"
       nm = FIXED_NAMES[d]
-      if d in (NEG, CALL):
+      if d in (BOOL, LEN):
+        # acc "all": a well-behaved __bool__/__len__; []: returns a value CPython refuses (TypeError on `not x`)
+        good, bad = ("True", "0") if d == BOOL else ("0", '"s"')
+        body.append(f"  def {nm}(self): return {good if acc == 'all' else bad}")
+      elif d == ITER:
+        body.append(f"  def {nm}(self): return iter(())")
+      elif d == CONTAINS:
+        body.append(f"  def {nm}(self, o): return True")
+      elif d == SETITEM:
+        body.append(f"  def {nm}(self, k, v): return None")
+      elif d == DELITEM:
+        body.append(f"  def {nm}(self, k): return None")
+      elif d in NULLARY:
         body.append(f"  def {nm}(self): return {ret}")
       elif d == GETITEM:
         body.append(f"  def {nm}(self, k):\n{GETITEM_GUARD}    return {ret}")
@@ -191,6 +256,8 @@ def class_source(classes, markers=True):
       else:
         names = ", ".join(cls_expr(classes, a) for a in acc)
         body.append(f"  def {nm}(self, o): return {ret} if type(o) in ({names},) else NotImplemented")
+      if d == LT + 4:
+        body.append("  def __hash__(self): return 12345")      # a class defining __eq__ stays hashable
     out += body or ["  pass"]
   return "\n".join(out) + "\n"
 
@@ -234,6 +301,18 @@ def stmt_text(classes, st, var, variant=(0, 0)):
     return f"{a} = {vx}; {b} = {value_expr(classes, st[2], variant[1])}; {var} = ({a})[{b}]"
   if k == "neg":
     return f"{a} = {vx}; {var} = -({a})"
+  if k == "cmp":
+    return f"{a} = {vx}; {b} = {value_expr(classes, st[3], variant[1])}; {var} = ({a}) {CMPOPS[st[2] - LT][0]} ({b})"
+  if k == "in":          # ("in", item, seq, negated)
+    return (f"{a} = {vx}; {b} = {value_expr(classes, st[2], variant[1])}; "
+            f"{var} = ({a}) {'not in' if st[3] else 'in'} ({b})")
+  if k == "st":          # ("st", x, SETITEM | DELITEM, key)
+    kx = value_expr(classes, st[3], variant[1])
+    if st[2] == SETITEM:
+      return f"{a} = {vx}; {b} = {kx}; {a}[{b}] = 1; {var} = {a}"
+    return f"{a} = {vx}; {b} = {kx}; del {a}[{b}]; {var} = {a}"
+  if k == "un":          # ("un", x, POS | INVERT | BOOL)   BOOL stands for `not x`
+    return f"{a} = {vx}; {var} = {UNSYM[st[2]]}({a})"
   if k == "call":
     return f"{a} = {vx}; {var} = ({a})()"
   if k == "attr":
@@ -241,6 +320,9 @@ def stmt_text(classes, st, var, variant=(0, 0)):
   if k == "mcall":
     return f"{a} = {vx}; {var} = ({a}).{st[2]}()"
   raise ValueError(st)
+
+
+UNSYM = {POS: "+", INVERT: "~", BOOL: "not "}
 
 
 def result_var(text):
@@ -486,17 +568,25 @@ def attr_universe(stub):
   for i in range(NB):
     s = set(BOGUS) | set(stub[i]["owner"]) | set(dir(head_value(i)))
     s = {n for n in s if re.fullmatch(r"[A-Za-z][A-Za-z_0-9]*", n)}      # public names only
-    s |= set(FIXED_NAMES[:INIT])
+    s |= set(FIXED_NAMES[:INIT]) | set(FIXED_NAMES[LT:NEW_END])
     uni.append(sorted(s))
   return uni
 
 
 def call0_probed(name):
   """Names for which `v.name()` is probed (zero-argument call): public names and the modelled nullary dunders."""
-  return not name.startswith("_") or name in ("__neg__", "__call__")
+  return not name.startswith("_") or name in ("__neg__", "__call__") or name in FIXED_NAMES[POS:ITER + 1]
 
 
 ARG_EXPRS = [h[1] for h in HEADS] + ["P_()", "F_()"]
+ARG_EXPRS2 = [h[1] for h in HEADS] + ["P_()", "H_()"]
+OLD_ARG1 = set(FIXED_NAMES[:GETITEM + 1])
+NEW_ARG1_NAMES = set(FIXED_NAMES[LT:IOP0 + N_BIN]) | {"__setitem__", "__delitem__"}
+DUNDER_IDS = set(FIXED_NAMES[:INIT]) | set(FIXED_NAMES[LT:NEW_END])
+
+
+def _singles_for(n):
+  return SINGLE_IDS2 if n in NEW_ARG1_NAMES else SINGLE_IDS
 
 
 def _checked(results, texts):
@@ -522,9 +612,10 @@ def probe_pytype(uni):
       keys.append((i, n, None)); texts.append(f"v{len(texts)} = ({HEADS[i][1]})()")
     elif call0_probed(n):
       keys.append((i, n, None)); texts.append(f"v{len(texts)} = ({HEADS[i][1]}).{n}()")
-    if n in FIXED_NAMES[:GETITEM + 1]:
-      for a, ex in enumerate(ARG_EXPRS):
-        keys.append((i, n, a)); texts.append(f"v{len(texts)} = ({HEADS[i][1]}).{n}({ex})")
+    if n in OLD_ARG1 or n in NEW_ARG1_NAMES:
+      for a, ex in enumerate(ARG_EXPRS if n in OLD_ARG1 else ARG_EXPRS2):
+        keys.append((i, n, a))
+        texts.append(f"v{len(texts)} = ({HEADS[i][1]}).{n}({ex}{', 1' if n == '__setitem__' else ''})")
   r2 = _checked(run_pytype(PROBE_CLASSES, texts), texts)
   rows = [dict() for _ in range(NB)]
   for (i, n) in present:
@@ -542,13 +633,13 @@ def probe_pytype(uni):
       e["accF"] = not errs
   # cells where the empty class is rejected but the full one accepted: which single dunder suffices?
   cells = [(i, n) for i in range(NB) for n, e in sorted(rows[i].items()) if e["accF"] and not e["accP"]]
-  texts = [f"v{k} = ({HEADS[i][1]}).{n}(G{d}_())" for k, (i, n, d) in
-           enumerate((i, n, d) for (i, n) in cells for d in range(CALL + 1))]
+  texts = [f"v{k} = ({HEADS[i][1]}).{n}(G{d}_(){', 1' if n == '__setitem__' else ''})" for k, (i, n, d) in
+           enumerate((i, n, d) for (i, n) in cells for d in _singles_for(n))]
   r3 = _checked(run_pytype(PROBE_CLASSES + SINGLE_CLASSES, texts), texts) if texts else []
   k = 0
   for (i, n) in cells:
     rows[i][n]["has"] = []
-    for d in range(CALL + 1):
+    for d in _singles_for(n):
       if not r3[k][0]:
         rows[i][n]["has"].append(d)
       k += 1
@@ -569,7 +660,9 @@ def probe_cpython(uni):
     n_exec += 1
     v = head_value(i)
     try:
-      f = type_lookup(v, n) if n in FIXED_NAMES[:INIT] else None
+      f = type_lookup(v, n) if n in DUNDER_IDS else None
+      if n == "__setitem__" and args:
+        args = args + (1,)
       r = f(v, *args) if f is not None else getattr(v, n)(*args)
       return r is not NotImplemented
     except (TypeError, AttributeError):
@@ -580,7 +673,7 @@ def probe_cpython(uni):
   for i in range(NB):
     v = head_value(i)
     for n in uni[i]:
-      if n in FIXED_NAMES[:INIT]:
+      if n in DUNDER_IDS:
         if type_lookup(v, n) is None:
           continue
       elif not hasattr(v, n):
@@ -588,16 +681,103 @@ def probe_cpython(uni):
       e = dict(call0=None, acc=[], accP=False, accF=False)
       if call0_probed(n):
         e["call0"] = accepted(i, n, ())
-      if n in FIXED_NAMES[:GETITEM + 1]:
+      if n in OLD_ARG1 or n in NEW_ARG1_NAMES:
         for a in range(NB):
           if accepted(i, n, (head_value(a),)):
             e["acc"].append(a)
         e["accP"] = accepted(i, n, (ns["P_"](),))
-        e["accF"] = accepted(i, n, (ns["F_"](),))
+        e["accF"] = accepted(i, n, (ns["F_" if n in OLD_ARG1 else "H_"](),))
         if e["accF"] and not e["accP"]:
-          e["has"] = [d for d in range(CALL + 1) if accepted(i, n, (ns[f"G{d}_"](),))]
+          e["has"] = [d for d in _singles_for(n) if accepted(i, n, (ns[f"G{d}_"](),))]
       rows[i][n] = e
   return rows, n_exec
+
+
+# ------------------------------------------------------------------------------------------
+# C14x: what compare.cmp_rel answers natively (before any dunder is looked up), observed on the real VM
+
+def _native_batch(job):
+  """Like _pytype_batch, with pytype.compare.cmp_rel wrapped (in this worker process only) so that its answer for
+  the comparison on each statement line is recorded: 'T'/'F' (a bool), 'N' (None: the dunder is dispatched),
+  'E' (CmpTypeError: unsupported-operands is reported)."""
+  from pytype import compare  # pylint: disable=import-outside-toplevel
+  pre, lines = job
+  npre = pre.count("\n")
+  seen = {}
+  orig = compare.cmp_rel
+
+  def wrapped(ctx, op, left, right):
+    line = ctx.vm.frame.current_opcode.line - npre - 1
+    try:
+      r = orig(ctx, op, left, right)
+    except compare.CmpTypeError:
+      seen.setdefault(line, []).append("E")
+      raise
+    seen.setdefault(line, []).append("N" if r is None else ("T" if r else "F"))
+    return r
+
+  compare.cmp_rel = wrapped
+  try:
+    res = _pytype_batch(job)
+  finally:
+    compare.cmp_rel = orig
+  if res[0] != "ok":
+    return res
+  return ("ok", [seen.get(j, []) for j in range(len(lines))], res[2])
+
+
+def probe_native():
+  """-> {(x, op id, y): 'T'|'F'|'N'|'E'} for x, y over the heads and NB (= an instance of a user class)."""
+  exprs = [h[1] for h in HEADS] + ["P_()"]
+  keys, texts = [], []
+  for x, ex in enumerate(exprs):
+    for y, ey in enumerate(exprs):
+      for k, (sym, _) in enumerate(CMPOPS):
+        j = len(texts)
+        keys.append((x, LT + k, y))
+        texts.append(f"a{j} = {ex}; b{j} = {ey}; v{j} = (a{j}) {sym} (b{j})")
+  jobs = [(PROBE_CLASSES, texts[o:o + 100]) for o in range(0, len(texts), 100)]
+  pool = _pool()
+  hs = [pool.apply_async(_native_batch, (jb,)) for jb in jobs]
+  out = {}
+  k = 0
+  for jb, h in zip(jobs, hs):
+    r = h.get(timeout=BATCH_TIMEOUT)
+    if r[0] != "ok" or r[2]:
+      raise TranslatorError(f"native-comparison probe failed: {r!r}"[:300])
+    for seen in r[1]:
+      if len(seen) != 1:
+        raise TranslatorError(f"compare.cmp_rel called {len(seen)} times for `{texts[k]}`")
+      out[keys[k]] = seen[0]
+      k += 1
+  return out
+
+
+def probe_hard():
+  """Run-time side of the in-place operators: for every head with an in-place dunder, does a rejection by that
+  dunder end the operation (nb_inplace slot raising TypeError: `d |= x`) or does CPython go on to the binary
+  operator (NotImplemented, or a sequence slot that is tried last: `l += x`)?  Observed by executing the statement
+  with a right operand that defines every reflected dunder."""
+  ns = {}
+  exec(PROBE_CLASSES, ns)  # pylint: disable=exec-used
+  hard = []
+  for i in range(NB):
+    for k, (sym, _) in enumerate(BINOPS):
+      v = head_value(i)
+      f = type_lookup(v, FIXED_NAMES[IOP0 + k])
+      if f is None:
+        continue
+      try:
+        if f(v, ns["RF_"]()) is not NotImplemented:
+          continue                   # accepted: says nothing
+      except TypeError:
+        pass
+      env = dict(ns, v=head_value(i))
+      try:
+        exec(f"v {sym}= RF_()", env)  # pylint: disable=exec-used
+      except TypeError:
+        hard.append((i, IOP0 + k))
+  return hard
 
 
 def name_table(uni, extra=()):
@@ -623,7 +803,7 @@ class TranslatorError(Exception):
 def uacc_term(head, name, e):
   """UNone / UAll / UHasAny [dunders]; fail closed when the probes do not fit that shape."""
   if e["accP"]:
-    if not e["accF"] and name in FIXED_NAMES[:GETITEM + 1]:
+    if not e["accF"] and (name in OLD_ARG1 or name in NEW_ARG1_NAMES):
       raise TranslatorError(f"{head}.{name}: accepts an empty user class but rejects one with every dunder")
     return "UAll"
   if not e["accF"]:
@@ -656,6 +836,8 @@ def regenerate():
   stub = stub_info()
   uni = attr_universe(stub)
   names = name_table(uni, extra=["ca", "cb", "ia", "ib", "meth", "c0", "c1", "c2", "i0", "i1", "i2", "zz"])
+  if names[:NEW_END] != FIXED_NAMES:
+    raise TranslatorError("name ids moved")
   py_rows, n_py = probe_pytype(uni)
   rt_rows, n_rt = probe_cpython(uni)
   py_mro = [stub[i]["mro"] for i in range(NB)]
@@ -670,6 +852,17 @@ def regenerate():
          "(* names: " + " ".join(f"{i}={n}" for i, n in enumerate(names)) + " *)", ""]
   txt.append(emit_rows("py_rows", py_rows, py_mro, lambda i, n: stub[i]["owner"].get(n), names, True))
   txt.append(emit_rows("rt_rows", rt_rows, rt_mros, rt_owner, names, True))
-  data = dict(stub=stub, uni=uni, names=names, py_rows=py_rows, rt_rows=rt_rows, py_mro=py_mro, rt_mro=rt_mros,
+  native = probe_native()
+  for (x, n, y), v in native.items():
+    if x == NB and v != "N":
+      raise TranslatorError(f"compare.cmp_rel answers {v} for a user-class instance on the left of {FIXED_NAMES[n]}")
+  hard = probe_hard()
+  txt.append("(* compare.cmp_rel observed on the real VM: (x, name, y, raises CmpTypeError); y = c14_nb: an instance of"
+             "\n   a user class; triples that are absent are dispatched to the dunder *)")
+  txt.append("Definition native_tbl : list (cls * name * cls * bool) := [\n  " + ";\n  ".join(
+      f"({x}, {n}, {y}, {coq_bool(v == 'E')})" for (x, n, y), v in sorted(native.items()) if v != "N") + "].\n")
+  txt.append("(* in-place dunders of builtin heads whose rejection ends the operation (no fall-back to the binary operator) *)")
+  txt.append("Definition rt_hard : list (cls * name) := [" + "; ".join(f"({i}, {n})" for i, n in hard) + "].\n")
+  data = dict(native=native, hard=hard, stub=stub, uni=uni, names=names, py_rows=py_rows, rt_rows=rt_rows, py_mro=py_mro, rt_mro=rt_mros,
               n_py=n_py, n_rt=n_rt, seconds=round(time.time() - t0, 1))
   return "\n".join(txt), data
